@@ -102,6 +102,14 @@ CHECKS = {
              "The tests only check three coarse inequalities; a wrong weight or a swapped branch is one mismatching node here. Agreement within 0.05 on all pairs, symmetry under rounding and 'never raises' are numeric and not decided.",
         ref="DESIGN 3/C11",
         note=TB + "; references in checks/C11.py transcribe CIE 15 / Sharma-Wu-Dalal / IEC 61966-2-1; matrix and Lab constants compared to 2e-4 relative with CIE-exact spellings accepted"),
+    "C10": dict(
+        technique="static formula-shape and constant audit of the OKLab forward/inverse pipeline + constant arithmetic on the code's own matrix literals (mutual inverses) + interval analysis and a path rule for the safe wrappers",
+        category="other",
+        text="Decides that rgb_to_oklch / oklch_to_rgb / linear_to_srgb are Ottosson's definition (33 matrix coefficients, sign-preserving cube root / cube, pi/180, cos/sin, atan2 hue wrap, transfer functions, the clamps that give L in [0,1] and 8-bit channels), "
+             "that M x M^-1 = I for the literals in the code, and that every return of a safe wrapper is the validated plain result or a fallback whose components are provably in range. Re-derived the genuine defect F-C10 "
+             "(rgb_to_oklch_safe((300,300,300)) -> L = 1.18), now fixed in /repo. Losslessness of the 2^24 round trip is numeric and not decided.",
+        ref="DESIGN 3/C10, 4/F-C10",
+        note=TB + "; references in checks/C10.py transcribe Ottosson's OKLab (matrices of 2021-01-25) to 1e-6 relative"),
 }
 
 NOT_APPLICABLE = {
@@ -138,7 +146,7 @@ def main():
             "enable": "no hooks: every check is a static analysis of /repo/src/cm_colors read with ast; nothing of the repository is built, imported or executed",
             "baseline_off_cmd": "cd /repo && /venv/bin/python -m pytest -q -p no:cacheprovider --timeout=900",
             "source_commits": [],
-            "fix_commits": ["133000f fix: hsla_to_rgb tuple branch raises ValueError (not TypeError) for non-numeric components"],
+            "fix_commits": ["133000f fix: hsla_to_rgb tuple branch raises ValueError (not TypeError) for non-numeric components", "f8908b4 fix: clamp the grey fallback lightness of rgb_to_oklch_safe to [0, 1]"],
             "add_only": True,
         },
         "engines": [{
